@@ -1,10 +1,16 @@
 import RsModel.Lemmas.Vlq
+import RsModel.Lemmas.TrapsTree
 /-!
 # C17 — no input in the documented domain makes the library panic or hang
 
 Termination: every model function is accepted by Lean's termination checker (structural recursion over
 the input list, or explicit fuel bounded by the input size), so the modelled loops cannot hang.
-The theorems below are about the decoder's arithmetic on *every* byte string.
+The first group of theorems is about the decoder's arithmetic on *every* byte string.  The second group (`Model/Checked.lean`,
+`Lemmas/Traps*.lean`) restates the streaming code with every partial operation of the Rust *checked* — `v[i]`, `u32`/`usize`
+subtraction and `+= 1` under overflow checks, `&s[a..b]` on a `str` — so that the checked function is `none` exactly where the Rust
+would panic, and proves that on the documented domain it is `some` of what the total model computes: no site can fire.  Which
+sites exist is read off the source (each carries its line number in `Checked.lean`); the checked functions are executable and
+the driver answers `stream` / `src` requests through them (`trap` when `none`), so they are compared with the crate on every run.
 -/
 namespace Rs
 
@@ -52,5 +58,45 @@ theorem c17_decode_total (bs : Text) : (decBytes decInitSt bs).1.Bounded := by
 
 /-- non-vacuity: a long run of continuation digits (the input that used to overflow the shift) -/
 example : (decBytes decInitSt (List.replicate 14 103 ++ [65])).1.dataPos = 1 := by decide
+
+/-! ## streaming and `source()`: no checked site can fire -/
+
+/-- **the four map-driven splitters cannot panic, whatever the map**: for every text (below 4 GiB − 2) and every SourceMap whose
+`mappings` string is below 4 GiB — segments unsorted or sorted, outside the text, source and name indices outside the tables,
+any `sourceRoot` — in both column settings and both modes every checked site (the `line_with_indices_list[current_generated_line
+- 1]` / `lines[current_generated_line as usize - 1]` accesses, the `u32` `- 1` and `+= 1`, `len() - 1`, `result.generated_line
+- 1`, `mapping.generated_line + 1`) succeeds and the result is the total model's. -/
+theorem c17_splitters_total (t : Text) (sm : SMap) (o : Opts) (ht : t.length + 2 < 2 ^ 32) (hm : sm.mappings.length + 1 < 2 ^ 32) :
+    Chk.streamSMC t sm o = some (streamSM t sm o) :=
+  Chk.streamSMC_total t sm o ht hm
+
+/-- the raw stream (`line += 1`, `line - 1`) -/
+theorem c17_raw_total (t : Text) (o : Opts) (ht : t.length + 1 < 2 ^ 32) : Chk.streamRawC t o = some (streamRaw t o) :=
+  Chk.streamRawC_total t o ht
+
+/-- **`source()` of every tree cannot panic** when each replacement position is on a char boundary of the text it edits or beyond
+its end (`Src.ReplDom`; multi-byte text, any order, overlap, `end < start`): every `&inner[a..b]` of the splice, evaluated with
+`str::get`'s rule, succeeds. -/
+theorem c17_source_total (s : Src) (h : s.ReplDom) : s.srcC = some s.src := Src.srcC_eq s h
+
+/-- **streaming a tree without CachedSource cannot trap in the checked parts** (raw leaves, map-driven leaves at any depth
+under ConcatSource / ReplaceSource), any store.  PARTIAL: OriginalSource's tokenizer, the combined-map lookup and the position
+bookkeeping of ConcatSource / ReplaceSource are not restated in checked form (they pass through the total model; K4 lives there). -/
+theorem c17_tree_stream_total_partial (s : Src) (o : Opts) (σ : Store) (hn : s.NoCached) (h : s.SizeOK) :
+    s.streamC o σ = some (s.stream o σ) := Src.streamC_eq s o σ hn h
+
+/-- … and a CachedSource answering from its cache replays whatever map an earlier call stored through the same splitters -/
+theorem c17_cached_replay_total (id : Nat) (inner : Src) (o : Opts) (σ : Store) (x : Option SMap) (hx : σ.get? (id, o) = some x)
+    (hlen : inner.src.length + 2 < 2 ^ 32) (hm : ∀ m, x = some m → m.mappings.length + 1 < 2 ^ 32) :
+    (Src.cached id inner).streamC o σ = some ((Src.cached id inner).stream o σ) :=
+  Src.cached_replayC_eq id inner o σ x hx hlen hm
+
+/-- the checked functions do trap outside the domain (so the theorems are not vacuous): a replacement inside `é`, … -/
+example : Chk.replaceSourceC [195, 169] [⟨1, 1, [120], none, 1⟩] = none := by decide
+/-- … and a closure state that `current_generated_line ≥ 1` rules out -/
+example : Chk.smStep1C [[97]] { line := 0, active := true } ⟨1, 0, none⟩ = none := by decide
+/-- a wild map on a two-line text: segment on line 7, column 40, source 9, name 9 -/
+example : (Chk.streamSMFullC [97, 10, 98] { mappings := [77, 65, 65, 65, 59, 59, 59, 59, 59, 59, 119, 67, 83, 65, 65, 83], sources := [], sourcesContent := [], names := [] }).isSome = true := by
+  decide
 
 end Rs
